@@ -397,6 +397,10 @@ def register(reg):
             ]
 
         def ensures(self, c):
+            if not isinstance(c.result, VRef):
+                # not an Origin built in this call from the URL's current fields (e.g. a remembered one: the URL's attributes are
+                # publicly assignable, routing and the TLS decision would then follow a stale origin - seed C10-w5-1)
+                return [("origin_scheme_host", ("C19", "C10"), False)]
             known, goals = self.spec(c, c.result)
             return goals + [("only_known_schemes_have_origins", ("C19",), known)]
 
